@@ -183,6 +183,38 @@ pub fn describe_call(log: &Log, c: &CallRec) -> Desc {
     }
 }
 
+/// What a mock-induced panic says, reduced to what does not depend on *how the call was reached*: the
+/// call it names first, the kind of error, the patterns it names. (A twin run reaches the same call
+/// directly instead of through a default body / real function; text that describes the route - a
+/// "while forwarding .." note, say - is not part of what the statements compare.)
+pub fn route_free(d: &Desc) -> Desc {
+    match d {
+        Desc::MockPanic(s) => {
+            let first = s.lines().next().unwrap_or("");
+            let sp = first.find(' ').unwrap_or(first.len());
+            let lead = match first.find('(') {
+                Some(p) if p < sp => first[p..].find(')').map(|q| &first[..p + q + 1]).unwrap_or(&first[..sp]),
+                _ => &first[..sp],
+            };
+            let mut pats: Vec<&str> = vec![];
+            let mut rest = s.as_str();
+            while let Some(a) = rest.find("#P") {
+                match rest[a + 2..].find('#') {
+                    Some(b) => {
+                        pats.push(&rest[a..a + 2 + b + 1]);
+                        rest = &rest[a + 2 + b + 1..];
+                    }
+                    None => break,
+                }
+            }
+            pats.sort();
+            pats.dedup();
+            Desc::MockPanic(format!("{}|{}|{:?}", lead.trim_end_matches(':'), crate::props::classify_mock_panic(s), pats))
+        }
+        other => other.clone(),
+    }
+}
+
 #[derive(Clone, Debug)]
 struct HOp {
     thread: usize,
